@@ -28,6 +28,7 @@ for sid in sorted(os.listdir('/verif/seeded')):
     errs = [l for l in r.stdout.splitlines() if l.startswith('ERROR') or l.startswith('UNDECIDED') or 'NOT-ANALYSABLE' in l]
     meta = json.load(open(f'{d}/meta.json'))
     meta['detected_by'] = fired; meta['checker_errors'] = errs
+    if fired: meta['why_missed'] = ''
     json.dump(meta, open(f'{d}/meta.json', 'w'), indent=1)
     own = meta['property'] in fired
     rows.append((sid, 'DETECTED' if fired else 'missed', 'by own property' if own else ('by ' + ','.join(sorted(fired)) if fired else ''), errs[:1]))
